@@ -421,7 +421,7 @@ func stressClaim(seed int64, ms int) string {
 		lookups.Load(), updates.Load(), later.Load(), miss.Load(), mix.Load(), first.get())
 }
 
-// stressHandover (fix D31): service pkg.Hand is listed by a permanent target (never drops it, never closes),
+// stressHandover (fix D31): service pkg.Hand is listed by two alternating targets (one of them always lists it),
 // by a flipper that alternately lists and drops it, and by cyclers that Watch → UpdateDesc (listing it) →
 // lookup → Close → lookups. Owners release the service all the time, so it keeps being handed over between
 // the waiting claimants. Once the permanent lister's first update has returned the service must never be
@@ -456,7 +456,7 @@ func stressHandover(seed int64, ms int) string {
 		lookups.Add(1)
 		if err != nil {
 			miss.Add(1)
-			first.set("%s: RouteGRPC(pkg.Hand) missed although the permanent target lists it: %v", who, err)
+			first.set("%s: RouteGRPC(pkg.Hand) missed although one of the alternating targets always lists it: %v", who, err)
 			return nil
 		}
 		if !within(g.Service, g.Target.Services) {
@@ -466,18 +466,20 @@ func stressHandover(seed int64, ms int) string {
 		return g.Target
 	}
 
-	// a first owner, so that the permanent lister starts as a claimant
-	fw, _ := sr.Watch("first")
-	fw.UpdateDesc(mk("first", true))
-	pw, _ := sr.Watch("perm")
-	pw.UpdateDesc(mk("perm", true))
-	fw.Close() // hand-over to perm
-
+	// two alternating listers driven by ONE goroutine: at every moment at least one of them has a completed
+	// update listing the service, so it must never be absent; but each of them drops it in turn, so the owner
+	// keeps releasing the service and it keeps being handed over to whoever waits (the other lister, a cycler).
+	p1, _ := sr.Watch("alt1")
+	p2, _ := sr.Watch("alt2")
+	p1.UpdateDesc(mk("alt1", true))
 	wg.Add(1)
-	go func() { // permanent lister
+	go func() {
 		defer wg.Done()
 		for !stop.Load() {
-			pw.UpdateDesc(mk("perm", true))
+			p2.UpdateDesc(mk("alt2", true))
+			p1.UpdateDesc(mk("alt1", false)) // alt1 releases / forgets its claim
+			p1.UpdateDesc(mk("alt1", true))
+			p2.UpdateDesc(mk("alt2", false)) // alt2 releases / forgets its claim
 		}
 	}()
 	wg.Add(1)
